@@ -52,7 +52,7 @@ func e2eArpComponent(r *hx.Run) {
 	dir := e2eWorkDir()
 	defer os.RemoveAll(dir)
 	rng := r.Rng
-	runs := 2
+	runs := 3
 	if r.Tier == "thorough" {
 		runs = 10
 	}
@@ -134,9 +134,14 @@ func e2eArpComponent(r *hx.Run) {
 			// the cache on stdin (no -a at all, or `-a -`)
 			args2 := []string{"tcp", "syn", "--json", "--exit-delay", "40ms", "-p", "443", "--gwmac", gw.String()}
 			var stdin2 []byte
+			opt2 := sxOpt{}
 			switch it % 4 {
 			case 1:
 				stdin2 = []byte(res.stdout)
+			case 2:
+				// `sx tcp … < arp.cache`: stdin is a regular file, not a pipe
+				stdin2 = []byte(res.stdout)
+				opt2.stdinFile = cf
 			case 3:
 				stdin2 = []byte(res.stdout)
 				args2 = append(args2, "-a", "-")
@@ -144,7 +149,7 @@ func e2eArpComponent(r *hx.Run) {
 				args2 = append(args2, "-a", cf)
 			}
 			args2 = append(args2, fmt.Sprintf("%s/%d", v4Text(base), ones))
-			res2 := runSX(stdin2, 30*time.Second, args2...)
+			res2 := runSXOpt(opt2, stdin2, 30*time.Second, args2...)
 			r.Count(fmt.Sprintf("cache-via:%s", map[bool]string{true: "stdin", false: "file"}[stdin2 != nil]))
 			lab.settle(50 * time.Millisecond)
 			var sent []string
